@@ -183,6 +183,61 @@ def _run(ck, m):
         okl = [w for w, s, bi, base in ll] == [8] and seek_ok
         ck.ob('C12.a', short(lb_.id), 'reads-time-of-last-record', okl,
               'last_op_time seeks to size - record size and reads the 8 byte time field' if okl else 'last_op_time layout %s' % ll, '%s:%s' % (lb_.file, lb_.line))
+        # ... of the file it reads: the size the position is computed from is the size of the very File the record is read from (its
+        # metadata / a seek to its end), not a figure another function adds up over the rotated files as well — with one rotated file the
+        # position lies past the end of the live file, the read returns nothing and the node reports 0 (= "send me everything") for ever
+        own = False
+        foreign = []
+        for bi, t in lb_.calls():
+            if callee_decl(t) == 'std::io::Seek::seek':
+                sc_, _pp = slice_calls(lb_, t['args'][1])
+                recv = {r[1] for r in origins(lb_, t['args'][0], stop_at_calls=True) if r[0] == 'call'}
+                opening = slice_calls(lb_, t['args'][0])[0]      # what the File itself is made from (its name, the open call)
+                for c_ in sc_:
+                    tc_ = lb_.term(c_)
+                    d_ = callee_decl(tc_)
+                    if d_ in ('std::fs::File::metadata', 'std::io::Seek::stream_position', 'std::io::Seek::seek') and tc_['args']:
+                        src_ = {r[1] for r in origins(lb_, tc_['args'][0], stop_at_calls=True) if r[0] == 'call'}
+                        if src_ & recv:
+                            own = True
+                    elif P.bodies.get(callee(tc_)) is not None and c_ not in recv and c_ not in opening:
+                        foreign.append(short(callee(tc_)))
+        oko = own and not foreign
+        ck.ob('C12.a', short(lb_.id), 'measures-the-file-it-reads', oko,
+              'last_op_time computes the position of the last record from the size of the file it reads' if oko else
+              'last_op_time computes the position of the last record from %s, not from the size of the file it then reads: once a rotated '
+              'file exists the position is past the end of the live file, the time reads as 0 and every reconnect ends in a full synchronisation'
+              % (sorted(set(foreign)) or 'something else than that file\'s metadata'), '%s:%s' % (lb_.file, lb_.line))
+    # ---- the writer's "file is full" agrees with the rotation's -----------------------------------
+    # The appender recovers from a refused record by asking for the append stream again, which rotates the live file only when ITS size test
+    # says full.  Both tests must look at the plain size of the live file against the same limit: a writer that refuses `size + record > limit`
+    # while the rotation waits for `size >= limit` refuses every record from then on (the limit is not a multiple of the record size by
+    # default), the log stops and every later operation is missing from the catch-up
+    lim_calls = lambda b_: [bi for bi, t in b_.calls() if callee(t).endswith('single_op_log_file_size')]
+    full_tests = []
+    for b_ in [wb] + [x for x in P.user_bodies() if x.id.endswith('get_log_file_append_mode')]:
+        for bl_i, bl in enumerate(b_.blocks):
+            if bl.get('cleanup'):
+                continue
+            for s_ in bl['s']:
+                if s_['k'] == 'assign' and s_['r']['k'] == 'bin' and s_['r']['op'] in ('Gt', 'Ge', 'Lt', 'Le'):
+                    sides = {}
+                    for k_ in ('a', 'b'):
+                        rs = origins(b_, s_['r'][k_], stop_at_calls=True)
+                        if any(r[0] == 'call' and r[1] in lim_calls(b_) for r in rs):
+                            sides['limit'] = k_
+                        else:
+                            sides['size'] = (k_, rs)
+                    if 'limit' in sides and 'size' in sides:
+                        plain = bool(sides['size'][1]) and all(r[0] == 'call' for r in sides['size'][1])
+                        full_tests.append((short(b_.id), b_.loc(bl_i), plain))
+    okf = len(full_tests) >= 2 and all(pl_ for _, _, pl_ in full_tests)
+    ck.ob('C12.e', short(wb.id), 'writer-and-rotation-agree-on-full', okf,
+          'the record writer and the rotation both compare the plain size of the live file with the limit' if okf else
+          'the "file is full" tests of the record writer and of the rotation do not both compare the plain file size with the limit (%s): a '
+          'record can be refused while the rotation does not consider the file full — the retry is refused too, the log stops growing and '
+          'the operations are missing from every later catch-up' % [(f_, l_, 'plain size' if p_ else 'size with arithmetic') for f_, l_, p_ in full_tests],
+          '%s:%s' % (wb.file, wb.line))
     # ---- (e) success only from a successful append --------------------------------------------
     for tb_ in tw:
         wcalls = [bi for bi, t_ in tb_.calls() if callee(t_) == wb.id]
@@ -193,7 +248,8 @@ def _run(ck, m):
                     others = {x for k_, x in tm_.items() if k_ != '0'}
                     ok_edges.append((tm_['0'], others))
         # values returned directly from a writer call count as well
-        ret_direct = [r for r in core.place_origins(tb_, {'l': 0}, stop_at_calls=True) if r[0] == 'call' and r[1] in wcalls]
+        THRU = ('std::result::Result::or_else', 'std::result::Result::or', 'std::result::Result::and_then', 'std::result::Result::map')
+        ret_direct = [r for r in core.place_origins(tb_, {'l': 0}, THRU) if r[0] == 'call' and r[1] in wcalls]
         bad = []
         for r in core.place_origins(tb_, {'l': 0}):
             if r[0] == 'agg':
@@ -208,6 +264,49 @@ def _run(ck, m):
               'empty, last_op_time reads 0 on a non-empty log and the node asks for a full synchronisation' % bad,
               '%s:%s' % (tb_.file, tb_.line))
     ck.floor('C12.e', len(tw), 1, 'appender functions (callers of the record writer)')
+    # the retry writes the SAME record: every call of the record writer made by the appender (its closures included) passes, position by
+    # position, the same operands — db id, key id, operation and time are all u64 / small integers, the compiler accepts them in any order,
+    # and a record whose db id and key id are swapped decodes to another database and key (or to none: the catch-up thread panics)
+    def _src(b_, op_, depth=0):
+        out_ = set()
+        for r in origins(b_, op_):
+            if r[0] == 'param':
+                out_.add('%s.arg%d%s' % (short(b_.id), r[1], ''.join('.' + str(q[2]) for q in r[-1] if q[0] == 'f')))
+            elif r[0] == 'capture' and depth < 3:
+                site = P.closure_sites().get(b_.id)
+                if site is not None and r[1] < len(site[3]):
+                    out_ |= _src(site[0], site[3][r[1]], depth + 1)
+                else:
+                    out_.add('capture')
+            elif r[0] == 'call':
+                out_.add('call:' + callee_decl(b_.term(r[1])).split('::')[-1])
+            else:
+                out_.add(r[0])
+        return frozenset(out_)
+    fam = {}
+    for tb_ in tw:
+        root_ = tb_
+        while root_.parent and root_.parent in P.bodies:
+            root_ = P.bodies[root_.parent]
+        for bi, t_ in tb_.calls():
+            if callee(t_) == wb.id:
+                fam.setdefault(root_.id, []).append((tb_, bi, [ _src(tb_, a_) for a_ in t_['args'][1:] ]))
+    nsib = 0
+    for rid, calls_ in sorted(fam.items()):
+        if len(calls_) < 2:
+            continue
+        nsib += 1
+        ref = calls_[0][2]
+        diff = []
+        for tb_, bi, srcs_ in calls_[1:]:
+            for j, (a_, b__) in enumerate(zip(ref, srcs_)):
+                if a_ != b__:
+                    diff.append('argument %d at %s is %s, the first call passes %s' % (j + 2, tb_.loc(bi), sorted(b__), sorted(a_)))
+        ck.ob('C12.a', short(rid), 'retry-writes-the-same-record', not diff,
+              'every call of the record writer in the appender passes the same operands in the same positions' if not diff else
+              'the calls of the record writer in %s do not pass the same record: %s — the first record of every new live file is stored with '
+              'its fields mixed up and decodes to another database and key' % (short(rid), '; '.join(diff[:2])), calls_[0][0].loc(calls_[0][1]))
+    ck.floor('C12.a', nsib, 1, 'appenders that call the record writer more than once (first attempt and retry)')
     # ---- (b) ---------------------------------------------------------------------------
     to_u8 = [b for b in P.user_bodies() if b.id.endswith('bo::ReplicateOpp::to_u8')]
     frm = [b for b in P.user_bodies() if 'ReplicateOpp as std::convert::From<u8>>::from' in b.id]
